@@ -10,8 +10,10 @@ package main
 //
 // AST JSON (all sequences are JSON arrays, no sets, so that it survives a TLC ndJsonDeserialize round trip):
 //   bundle  = [pkg]                          pkg  = {name:"foo.v1", files:[file]}
-//   file    = {name:"a", imports:[imp], decls:[decl]}            -> <pkgdir>/a.j5s
-//   imp     = {pkg:"bar.v1", form:"pkg"|"alias"|"file", alias:"bz", file:"b"}
+//   file    = {name:"a", kind:"j5s"|"proto", imports:[imp], decls:[decl]}   -> <pkgdir>/a.j5s  or  <pkgdir>/a.proto
+//             (a proto file holds objects with string / reference fields and enums only and is printed as plain proto3)
+//   imp     = {pkg:"bar.v1", form:"pkg"|"alias"|"file"|"protofile"|"j5sfile", alias:"bz", file:"b"}
+//             file: import "<dir>/b.j5s.proto" from j5s; protofile: import "<dir>/b.proto" from j5s; j5sfile: a proto file importing "<dir>/b.j5s.proto"
 //   decl    = {kind:"object", name:N, fields:[field], nested:[decl]}
 //           | {kind:"oneof",  name:N, fields:[field]}
 //           | {kind:"enum",   name:N, options:["A","B"], unspec:bool, prefix:""}
@@ -102,6 +104,7 @@ type schemaImport struct {
 
 type schemaFile struct {
 	Name    string         `json:"name"`
+	Kind    string         `json:"kind"` // "j5s" (default) | "proto": a hand-written proto3 file of the bundle
 	Imports []schemaImport `json:"imports"`
 	Decls   []schemaDecl   `json:"decls"`
 }
@@ -335,6 +338,10 @@ func astToJ5s(b schemaBundle) map[string]string {
 		pkg := &b[pi]
 		for fi := range pkg.Files {
 			f := &pkg.Files[fi]
+			if f.Kind == "proto" {
+				out[pkgDir(pkg.Name)+"/"+f.Name+".proto"] = printProtoFile(pkg.Name, f)
+				continue
+			}
 			p := &j5sPrinter{}
 			p.line("package %s", pkg.Name)
 			p.line("")
@@ -344,6 +351,8 @@ func astToJ5s(b schemaBundle) map[string]string {
 					p.line("import %s:%s", im.Pkg, im.Alias)
 				case "file":
 					p.line("import %q", pkgDir(im.Pkg)+"/"+im.File+".j5s.proto")
+				case "protofile":
+					p.line("import %q", pkgDir(im.Pkg)+"/"+im.File+".proto")
 				default:
 					p.line("import %s", im.Pkg)
 				}
@@ -370,4 +379,51 @@ func bundlePackages(b schemaBundle) []string {
 	}
 	sort.Strings(out)
 	return out
+}
+
+// printProtoFile prints a hand-written proto3 file of the bundle (objects with string / message fields, enums).
+func printProtoFile(pkg string, f *schemaFile) string {
+	p := &j5sPrinter{}
+	p.line("syntax = \"proto3\";")
+	p.line("")
+	p.line("package %s;", pkg)
+	p.line("")
+	for _, im := range f.Imports {
+		switch im.Form {
+		case "j5sfile":
+			p.line("import %q;", pkgDir(im.Pkg)+"/"+im.File+".j5s.proto")
+		default:
+			p.line("import %q;", pkgDir(im.Pkg)+"/"+im.File+".proto")
+		}
+	}
+	for di := range f.Decls {
+		d := &f.Decls[di]
+		switch d.Kind {
+		case "object":
+			p.line("message %s {", d.Name.Src)
+			p.ind++
+			for i := range d.Fields {
+				fl := &d.Fields[i]
+				t := "string"
+				if fl.Type.K == "ref" {
+					t = fl.Type.Pkg + "." + strings.Join(fl.Type.Path, ".")
+				}
+				p.line("%s %s = %d;", t, fl.Name.Src, i+1)
+			}
+			p.ind--
+			p.line("}")
+		case "enum":
+			pre := strings.ToUpper(d.Name.Src) + "_"
+			p.line("enum %s {", d.Name.Src)
+			p.ind++
+			p.line("%sUNSPECIFIED = 0;", pre)
+			for i, o := range d.Options {
+				p.line("%s%s = %d;", pre, o, i+1)
+			}
+			p.ind--
+			p.line("}")
+		}
+		p.line("")
+	}
+	return p.sb.String()
 }
